@@ -32,7 +32,7 @@
    that flattening (code 74).  Property theorems only. *)
 From TV Require Import Base Model.Wiring Model.Ticker Model.Component Model.Sim Model.SimTime Model.Inline Model.NSim
   Oracle.SimCheck Oracle.SimOracle
-  Proofs.SimP Proofs.FlattenP Proofs.EqvP Proofs.ParDevP Proofs.InlineP Proofs.InlineLoopP Proofs.InlineScopeP Proofs.SimTimeP Proofs.InlineLatestP Proofs.ScheduleP Proofs.SimTraceP.
+  Proofs.SimP Proofs.FlattenP Proofs.EqvP Proofs.ParDevP Proofs.InlineP Proofs.InlineLoopP Proofs.InlineScopeP Proofs.InlineAllP Proofs.SimTimeP Proofs.InlineLatestP Proofs.ScheduleP Proofs.SimTraceP.
 Open Scope Z_scope.
 
 Theorem C09_flat_devices : forall cfg fuel lv, flat_order fuel cfg lv = devices_below cfg fuel lv.
@@ -81,7 +81,7 @@ Theorem C09_inline_transparent : forall cfg c lvc pre inn post (devf : devfun) f
   obs_rel obN obF /\ doneN = doneF.
 Proof.
   intros cfg c lvc pre inn post devf f n initial horizon Hs Hnd Hext.
-  pose proof (run_inline cfg c lvc pre inn post (shape_of_sound _ _ _ _ _ _ Hs) devf Hnd Hext f (shape_of_devices _ _ _ _ _ _ Hs (S f)) n initial horizon) as H.
+  pose proof (run_inline cfg c lvc pre inn post (shape_of_sound _ _ _ _ _ _ Hs) devf Hnd Hext f (shape_of_devices _ _ _ _ _ _ Hs f) n initial horizon) as H.
   destruct (sim_run cfg devf n (S f) initial horizon) as [[sN obN] dN].
   destruct (sim_run (inline cfg c lvc) devf n (S f) initial horizon) as [[sF obF] dF].
   split; apply H.
@@ -141,7 +141,7 @@ Theorem C09_inline_transparent_script : forall cfg c lvc pre inn post (devf : de
           (snd (sim_script_from_start (inline cfg c lvc) devf (S f) initial script)).
 Proof.
   intros cfg c lvc pre inn post devf f initial script Hs Hnd Hext Hok.
-  pose proof (script_run_inline cfg c lvc pre inn post (shape_of_sound _ _ _ _ _ _ Hs) devf Hnd Hext f (shape_of_devices _ _ _ _ _ _ Hs (S f)) initial script Hok) as H.
+  pose proof (script_run_inline cfg c lvc pre inn post (shape_of_sound _ _ _ _ _ _ Hs) devf Hnd Hext f (shape_of_devices _ _ _ _ _ _ Hs f) initial script Hok) as H.
   destruct (sim_script_from_start cfg devf (S f) initial script) as [sN obN].
   destruct (sim_script_from_start (inline cfg c lvc) devf (S f) initial script) as [sF obF]. apply H.
 Qed.
@@ -182,7 +182,7 @@ Theorem C09_inline_transparent_siblings : forall cfg c lvc pre inn post (devf : 
   obs_rel obN obF /\ doneN = doneF.
 Proof.
   intros cfg c lvc pre inn post devf f n initial horizon Hs Hnd Hext.
-  destruct (shape_at_sound cfg (S f) c lvc pre inn post Hs) as [Hsh Hsib].
+  destruct (shape_at_sound cfg f c lvc pre inn post Hs) as [Hsh Hsib].
   pose proof (run_inline cfg c lvc pre inn post Hsh devf Hnd Hext f Hsib n initial horizon) as H.
   destruct (sim_run cfg devf n (S f) initial horizon) as [[sN obN] dN].
   destruct (sim_run (inline cfg c lvc) devf n (S f) initial horizon) as [[sF obF] dF].
@@ -234,6 +234,104 @@ Example C09_siblings_example :
   shape_at two_cfg 8 4%positive = Some (2%positive, [3%positive], [5%positive], [7%positive; 8%positive]) /\
   shape_at (inline two_cfg 4%positive 2%positive) 8 7%positive = Some (3%positive, [3%positive; 5%positive], [9%positive], [8%positive]) /\
   map fst (l_order (level_of (inline (inline two_cfg 4%positive 2%positive) 7%positive 3%positive) 1%positive)) = [3; 5; 9; 8]%positive.
+Proof. vm_compute. repeat split; reflexivity. Qed.
+
+(* (5) ANY DEPTH.  The system simulation c that is inlined may itself hold system simulations (of any depth): they
+   become top-level system simulations of the inlined configuration ([shape_at] accepts them; the nested
+   scheduler of c ran them with one unit of fuel less, which changes nothing once the fuel exceeds the depth,
+   Proofs/FuelP.v).  Inlining the top-level system simulations one after the other ([inline_all]) therefore
+   flattens a nesting of any depth, and the nested run and the run of the flat result perform the same device
+   updates, in the same order, at the same simulation times, with equal inputs.  [scope_all] decides the scope:
+   every step in the scope of (4), the given number of steps enough to reach a top level of devices. *)
+Theorem C09_flatten_any_depth : forall cfg k (devf : devfun) f n initial horizon,
+  scope_all k (S f) [] cfg = true ->
+  (forall d k t i, NoDup (keys (fst (devf d k t i)))) ->
+  (forall d k t i i', NoDup (keys i) -> NoDup (keys i') -> eqv i i' -> devf d k t i = devf d k t i') ->
+  (forall ck, In ck (l_order (level_of (inline_all k cfg) top)) -> snd ck = KDev) /\
+  let '(_, obN, doneN) := sim_run cfg devf n (S f) initial horizon in
+  let '(_, obF, doneF) := sim_run (inline_all k cfg) devf n (S f) initial horizon in
+  obs_rel obN obF /\ doneN = doneF.
+Proof.
+  intros cfg k devf f n initial horizon Hs Hnd Hext. split; [exact (inline_all_flat k (S f) [] cfg Hs)|].
+  exact (inline_all_transparent devf Hnd Hext f n initial horizon k cfg Hs).
+Qed.
+
+Theorem C09_flatten_any_depth_table : forall cfg k tab f n initial horizon,
+  scope_all k (S f) [] cfg = true ->
+  let '(_, obN, doneN) := sim_run cfg (table_dev tab) n (S f) initial horizon in
+  let '(_, obF, doneF) := sim_run (inline_all k cfg) (table_dev tab) n (S f) initial horizon in
+  obs_rel obN obF /\ doneN = doneF.
+Proof.
+  intros cfg k tab f n initial horizon Hs.
+  exact (inline_all_transparent (table_dev tab) (table_dev_nd tab) (table_dev_ext tab) f n initial horizon k cfg Hs).
+Qed.
+
+(* the same for the real-time master model at speed 1 *)
+Theorem C09_flatten_any_depth_master : forall cfg k (devf : devfun) f n initial t_end,
+  scope_all k (S f) [] cfg = true ->
+  (forall d k t i, NoDup (keys (fst (devf d k t i)))) ->
+  (forall d k t i i', NoDup (keys i) -> NoDup (keys i') -> eqv i i' -> devf d k t i = devf d k t i') ->
+  (forall d k t i w, snd (devf d k t i) = Some w -> t <= w) ->
+  obs_rel (m_obs (simulate_full cfg devf 1 1 (S f) n initial [] [] t_end))
+          (m_obs (simulate_full (inline_all k cfg) devf 1 1 (S f) n initial [] [] t_end)).
+Proof.
+  intros cfg k devf f n initial t_end Hs Hnd Hext Hwell.
+  pose proof (inline_all_transparent devf Hnd Hext f n initial (initial + t_end) k cfg Hs) as H.
+  pose proof (master_is_sim_loop cfg devf Hwell (S f) initial t_end n) as HN.
+  pose proof (master_is_sim_loop (inline_all k cfg) devf Hwell (S f) initial t_end n) as HF.
+  cbv zeta in HN, HF.
+  destruct (sim_run cfg devf n (S f) initial (initial + t_end)) as [[sN obN] dN].
+  destruct (sim_run (inline_all k cfg) devf n (S f) initial (initial + t_end)) as [[sF obF] dF].
+  destruct HN as [_ HN]. destruct HF as [_ HF]. rewrite HN, HF. apply H.
+Qed.
+
+(* with interrupts, between ticks, of components that stay outside every inlined system (ys) *)
+Theorem C09_flatten_any_depth_script : forall cfg k ys (devf : devfun) f initial script,
+  scope_all k (S f) ys cfg = true ->
+  (forall d k t i, NoDup (keys (fst (devf d k t i)))) ->
+  (forall d k t i i', NoDup (keys i) -> NoDup (keys i') -> eqv i i' -> devf d k t i = devf d k t i') ->
+  (forall y w, In (IStim y w) script -> In y ys) ->
+  obs_rel (snd (sim_script_from_start cfg devf (S f) initial script))
+          (snd (sim_script_from_start (inline_all k cfg) devf (S f) initial script)).
+Proof.
+  intros cfg k ys devf f initial script Hs Hnd Hext Hys.
+  exact (inline_all_transparent_script devf Hnd Hext f initial script ys Hys k cfg Hs).
+Qed.
+
+(* composed with C08: what the NESTED model of a nesting of any depth computes is what EVERY schedule (any order
+   in which the components answer, tick after tick) of its flat equivalent gives every device *)
+Theorem C09_any_depth_is_every_flat_schedule : forall cfg k ys (devf : devfun) f initial script sA obA,
+  scope_all k (S f) ys cfg = true ->
+  flat_wfb (level_of (inline_all k cfg) top) = true ->
+  (forall d k t i, NoDup (keys (fst (devf d k t i)))) ->
+  (forall d k t i i', NoDup (keys i) -> NoDup (keys i') -> eqv i i' -> devf d k t i = devf d k t i') ->
+  (forall y w, In (IStim y w) script -> In y ys) ->
+  (forall y, In y ys -> In y (map fst (l_order (level_of (inline_all k cfg) top)))) ->
+  nrun (l_conns (level_of (inline_all k cfg) top)) (map fst (l_order (level_of (inline_all k cfg) top))) devf initial script sA obA ->
+  forall d, obs_rel (dev_obs d (snd (sim_script_from_start cfg devf (S f) initial script))) (dev_obs d obA).
+Proof.
+  intros cfg k ys devf f initial script sA obA Hs Hwf Hnd Hext Hys Hin HA d.
+  pose proof (C09_flatten_any_depth_script cfg k ys devf f initial script Hs Hnd Hext Hys) as H1.
+  assert (Hok2 : forall y w, In (IStim y w) script -> In y (map fst (l_order (level_of (inline_all k cfg) top)))).
+  { intros y w Hi. apply Hin. apply (Hys y w Hi). }
+  pose proof (nrun_is_sim (inline_all k cfg) devf (S f) Hnd Hext (flat_wfb_sound _ Hwf) initial script sA obA Hok2 HA) as H2.
+  destruct (sim_script_from_start (inline_all k cfg) devf (S f) initial script) as [sF obF]. destruct H2 as [_ H2]. cbn [snd] in H1.
+  eapply obs_rel_trans; [apply obs_rel_dev_obs; exact H1 | apply obs_rel_sym; apply H2].
+Qed.
+
+(* non-vacuity: [sib_cfg] above is three levels deep (system 7 holds device 9 and system 10, which holds device 11):
+   the system 7 can be inlined (its inner system 10 becomes a top-level system); four steps flatten the whole
+   nesting, the result is the Coq flattening, and it is a well-formed flat level; interrupts of the source 3 and
+   the sink 8 stay in scope *)
+Example C09_any_depth_example :
+  shape_at sib_cfg 8 7%positive = Some (3%positive, [3%positive; 4%positive], [9%positive; 10%positive], [8%positive]) /\
+  scope_all 5 8 [3%positive; 8%positive] sib_cfg = true /\
+  map fst (l_order (level_of (inline_all 5 sib_cfg) 1%positive)) = [3; 5; 6; 9; 11; 8]%positive /\
+  list_eqb Pos.eqb (flat_order 40 sib_cfg 1%positive) (map fst (l_order (level_of (inline_all 5 sib_cfg) 1%positive))) = true /\
+  conns_set_eqb (flat_conns sib_cfg) (l_conns (level_of (inline_all 5 sib_cfg) 1%positive)) = true /\
+  flat_wfb (level_of (inline_all 5 sib_cfg) 1%positive) = true /\
+  (let '(_, obN, _) := sim_run sib_cfg (table_dev sib_tab) 20 8 0 100000 in
+   map fst obN = map fst (snd (fst (sim_run (inline_all 5 sib_cfg) (table_dev sib_tab) 20 8 0 100000)))).
 Proof. vm_compute. repeat split; reflexivity. Qed.
 
 (* the premises hold somewhere and the conclusion is not empty: two devices around a system of two
